@@ -93,6 +93,25 @@ def _running_max(t, loop_iter_pred, elem_call_pred):
         comp = t[2][0]
         gens = comp[3]
         return len(gens) == 1 and loop_iter_pred(gens[0][1]) and not gens[0][2] and elem_call_pred(comp[2]), "max(<comprehension>)"
+    if t[0] == "call" and t[1] == ("global", "max") and t[2]:
+        # max([0] + [f(a) for a in levels]) / max([f(a) for ..], default=0) / max(0, *[..]): the start value 0 written into the maximum
+        from ..colwrites import list_templates
+        items = []
+        for a_ in t[2]:
+            a_ = a_[1] if a_[0] == "starred" else a_
+            tpl = list_templates(a_) if len(t[2]) == 1 or a_[0] in ("comp", "list", "bin") else [a_]
+            if tpl is None:
+                return False, f"max over {ir.show(a_, maxdepth=3)}"
+            items += tpl
+        consts = [x for x in items if x[0] == "const"]
+        rest = [x for x in items if x[0] != "const"]
+        dflt = dict(t[3]).get("default")
+        if all(isinstance(x[1], (int, float)) and x[1] <= 0 for x in consts) and (dflt is None or (dflt[0] == "const" and dflt[1] == 0)) and len(rest) == 1:
+            # the comprehension's element template: list_templates gives the element with its elem(levels) inside
+            comp = next((y for a_ in t[2] for y in ir.walk(a_) if y[0] == "comp" and y[2] == rest[0]), None)
+            if comp is not None and len(comp[3]) == 1 and loop_iter_pred(comp[3][0][1]) and not comp[3][0][2] and elem_call_pred(comp[2]):
+                return True, "max(0, <comprehension>)"
+        return False, f"maximum over {[ir.show(x, maxdepth=3) for x in items]}"
     if t[0] != "loopout":
         return False, f"not a loop result ({t[0]})"
     lid, name, init, body = t[1], t[2], t[3], t[4]
